@@ -106,6 +106,41 @@ func main() {
 					}
 					return true
 				})
+				if *set == 7 {
+					// a slice bound dropped; the operands of a non-commutative operator swapped
+					ast.Inspect(fd.Body, func(n ast.Node) bool {
+						switch x := n.(type) {
+						case *ast.SliceExpr:
+							if x.Slice3 {
+								return true
+							}
+							a, b := off(x.Pos()), off(x.End())
+							base := string(src[off(x.X.Pos()):off(x.X.End())])
+							line := pkg.Fset.Position(x.Pos()).Line
+							if x.Low != nil && x.High != nil {
+								lo := string(src[off(x.Low.Pos()):off(x.Low.End())])
+								hi := string(src[off(x.High.Pos()):off(x.High.End())])
+								out = append(out, mutant{File: rel, Line: line, Func: name, Op: "slice drop-high", Start: a, End: b, Orig: string(src[a:b]), Repl: base + "[" + lo + ":]"})
+								out = append(out, mutant{File: rel, Line: line, Func: name, Op: "slice drop-low", Start: a, End: b, Orig: string(src[a:b]), Repl: base + "[:" + hi + "]"})
+							}
+						case *ast.BinaryExpr:
+							switch x.Op {
+							case token.SUB, token.QUO, token.REM, token.SHL, token.SHR, token.AND_NOT, token.LSS, token.GTR, token.LEQ, token.GEQ:
+								tx, okx := info.Types[x.X]
+								ty, oky := info.Types[x.Y]
+								if !okx || !oky || tx.Type == nil || ty.Type == nil || !types.Identical(tx.Type, ty.Type) || tx.Value != nil && ty.Value != nil {
+									return true
+								}
+								a, b := off(x.Pos()), off(x.End())
+								l := string(src[off(x.X.Pos()):off(x.X.End())])
+								rr := string(src[off(x.Y.Pos()):off(x.Y.End())])
+								out = append(out, mutant{File: rel, Line: pkg.Fset.Position(x.Pos()).Line, Func: name, Op: "swap-operands " + x.Op.String(), Start: a, End: b, Orig: string(src[a:b]), Repl: rr + " " + x.Op.String() + " " + l})
+							}
+						}
+						return true
+					})
+					continue
+				}
 				if *set == 6 {
 					// a conjunct or disjunct dropped; an error result replaced by nil
 					ast.Inspect(fd.Body, func(n ast.Node) bool {
